@@ -16,6 +16,6 @@ Definition model_obs (c : transport * list kwargs) : list obs1 :=
                 | Err => Err
                 end) (session (fst c) (snd c)).
 Definition guards (c : transport * list kwargs) : list bool :=
-  [forallb (guard_F17b (fst c)) (snd c)].
+  [].
 Definition run (cases : list ((transport * list kwargs) * list obs1)) : list N :=
   report (list_eqb obs1_eqb) model_obs guards cases.
